@@ -129,19 +129,58 @@ class HarnessError(Exception):
 # --------------------------------------------------------------------------
 _FREEZER: list[Any] = [None, None]
 DEFAULT_DAY = dt.date(2024, 5, 15)
+# The zone the frozen clock pretends to be in: [hours east of UTC, local hour, local minute].
+# The default is a UTC machine at noon.  A check that wants "the local calendar day is not the
+# UTC calendar day" (an evening west of UTC, a night east of it) calls set_zone() around a case;
+# `day` handed to freeze() always is the LOCAL calendar day, which is what zorg means by today.
+_ZONE: list[int] = [0, 12, 0]
+ZONES = {"utc-noon": (0, 12, 0), "east-night": (2, 0, 30), "west-evening": (-8, 19, 30)}
 
 
-def freeze(day: dt.date, hour: int = 12) -> None:
-    """Freeze (or move) this process's clock to `day` at `hour`:00:00."""
+def set_zone(name: str = "utc-noon") -> None:
+    _ZONE[:] = ZONES[name]
+
+
+def _faithful_now() -> None:
+    """freezegun adds tz_offset to datetime.now(tz) as well, so under it an aware 'now in UTC'
+    shows the local wall clock; the stand-in is made faithful: an aware now() is the frozen UTC
+    instant expressed in that zone, a naive now()/today() is local time."""
+    import freezegun.api as fa
+
+    if getattr(fa.FakeDatetime, "_verif_faithful", False):
+        return
+
+    def now(cls, tz=None):  # type: ignore[no-untyped-def]
+        cur = cls._time_to_freeze() or fa.real_datetime.now()
+        if tz:
+            result = tz.fromutc(cur.replace(tzinfo=tz))
+        else:
+            result = cur + cls._tz_offset()
+        return fa.datetime_to_fakedatetime(result)
+
+    fa.FakeDatetime.now = classmethod(now)  # type: ignore[method-assign]
+    fa.FakeDatetime._verif_faithful = True  # type: ignore[attr-defined]
+
+
+def freeze(day: dt.date, hour: Optional[int] = None) -> None:
+    """Freeze (or move) this process's clock so that the LOCAL time is `day` at the zone's hour
+    (or `hour`):minute; the UTC instant is that minus the zone's offset."""
     from freezegun import freeze_time
+    import freezegun.api as fa
 
-    stamp = dt.datetime(day.year, day.month, day.day, hour, 0, 0)
+    _faithful_now()
+    shift, h, m = _ZONE
+    if hour is not None:
+        h = hour
+    local = dt.datetime(day.year, day.month, day.day, h, m, 0)
+    stamp = local - dt.timedelta(hours=shift)
     if _FREEZER[0] is None:
-        f = freeze_time(stamp)
+        f = freeze_time(stamp, tz_offset=shift)
         _FREEZER[1] = f.start()
         _FREEZER[0] = f
     else:
         _FREEZER[1].move_to(stamp)
+        fa.tz_offsets[-1] = dt.timedelta(hours=shift)
 
 
 def unfreeze() -> None:
